@@ -4,6 +4,7 @@ Monitor: every PDDLWriter.get_domain/get_problem/get_plan and PDDLReader.parse_p
 generated problems is judged at the API boundary: the re-read problem must be behaviourally equivalent to the original under
 the writer's own renaming (vk.ref.bisim over vk.ref.seqsem), and written plans must parse back to the same instance sequence
 with the same reference validity."""
+import ast as _ast
 from fractions import Fraction
 
 from vk import env as _env  # noqa: F401  (wires sys.path to /repo)
@@ -42,7 +43,12 @@ RULE = (
     ">= 1 arithmetic expression of depth >= 2 for which the bisimulation judged at least one applicable state-changing instance. "
     "The case index stratifies the variant (classic / AI-reader friendly / temporal), the duration form and the planted nested "
     "expression; only the AI-reader friendly cases and a quarter of the others are given to the AI-planning reader in the quick "
-    "tier. Problems for which the writer emits a reserved word of the PDDL BNF as a name (e.g. `assign`) are property C38's "
+    "tier. Every 9th case each carries a planted writer trap on top of its variant (both meet every variant): (a) `f := e` for a "
+    "Boolean fluent f that is true everywhere initially and a non-constant e that the simplifier reduces to false (g and not g, "
+    "not true, 1 > 2, o1 == o2, exists x. (.. and false), ..; every 7th the mirror image with true), unconditional or under a "
+    "forall, mostly in an action of its own without precondition, written with rewrite_bool_assignments (durative: at start / "
+    "at end); (b) a flat typing with >= 2 root types one of which is called object / Object / OBJECT / oBjEcT, with objects and "
+    "action parameters of it and of another type. Problems for which the writer emits a reserved word of the PDDL BNF as a name (e.g. `assign`) are property C38's "
     "subject and are not judged (counter rejected-by-C38-defect:keyword-as-name)."
 )
 ASSUMPTIONS = [
@@ -98,9 +104,10 @@ def _renamed_items(problem, writer):
     return n
 
 
-def _negative_bool_tautologies(problem):
-    """Names of Boolean fluents with an unconditional assignment whose value is a non-constant expression that the library's
-    simplifier reduces to false (only used to name the mechanism of a mismatch, never for a verdict)."""
+def _constant_bool_assignments(problem):
+    """[(action name, fluent name, value)] for the unconditional assignments to Boolean fluents whose value is a non-constant
+    expression that the library's simplifier reduces to a constant (coverage counter and mechanism name of a mismatch only,
+    never a verdict)."""
     out = []
     for a in problem.actions:
         effs = a.effects if hasattr(a, "preconditions") else [e for el in a.effects.values() for e in el]
@@ -108,11 +115,23 @@ def _negative_bool_tautologies(problem):
             v = e.value
             if v.type.is_bool_type() and not v.is_constant():
                 try:
-                    if v.simplify().is_false() and e.condition.simplify().is_true():
-                        out.append(e.fluent.fluent().name)
+                    sv = v.simplify()
+                    if (sv.is_false() or sv.is_true()) and e.condition.simplify().is_true():
+                        out.append((a.name, e.fluent.fluent().name, sv.is_true()))
                 except Exception:  # noqa
                     pass
     return out
+
+
+def _object_named_types(problem):
+    """The user types called `object` (in any letter case) of a flat typing with further types, with objects of them and of
+    another type, and whether some action / fluent parameter has such a type."""
+    if len(problem.user_types) < 2 or problem.kind.has_hierarchical_typing():
+        return [], False
+    ts = [t for t in problem.user_types if t.name.lower() == "object"]
+    ts = [t for t in ts if 0 < sum(1 for o in problem.all_objects if o.type == t) < len(problem.all_objects)]
+    used = any(p.type in ts for a in problem.actions for p in a.parameters) or any(p.type in ts for f in problem.fluents for p in f.signature)
+    return ts, used
 
 
 def run_case(key, tier, res):
@@ -121,6 +140,8 @@ def run_case(key, tier, res):
     rng = rng_for(key)
     rec, info = iofrag.gen_pddl_case(rng, int(key.rsplit(":", 1)[1]))
     explicit_env = rng.random() < 0.12
+    if info.get("stratum"):
+        res.count("stratum:" + info["stratum"])
     e = _env.fresh_env()
     try:
         pb, ctx = io_rt.instantiate(rec, e)
@@ -176,13 +197,20 @@ def check_problem(pb, rec, info, wbase, b, res, rng, explicit_env=False):
     pddl3 = io_rt.pddl3_word_names(pb, writer)
     if pddl3:
         res.count("text:pddl3-word-as-name")
-    neg_taut = _negative_bool_tautologies(pb) if info.get("rewrite") else []
+    const_ass = _constant_bool_assignments(pb) if info.get("rewrite") else []
+    neg_taut = [f for _, f, v in const_ass if not v]
     if neg_taut:
         res.count("text:bool-assignment-simplifying-to-false")
-    # a user type called `object` in a flat typing with other types is written as PDDL's root type `object`
-    type_object = len(pb.user_types) > 1 and not pb.kind.has_hierarchical_typing() and any(t.name.lower() == "object" for t in pb.user_types)
-    if type_object:
+    # a user type called `object` in a flat typing with other types must not be written as PDDL's root type `object`
+    obj_types, obj_type_used = _object_named_types(pb)
+    type_object = False  # the writer left one of them unmangled
+    if obj_types:
         res.count("text:user-type-named-object")
+        for t in obj_types:
+            try:
+                type_object = type_object or writer.get_pddl_name(t).lower() == "object"
+            except io_rt.UPException:
+                pass
     import re as _re
 
     constant_metric = bool(_re.search(r"\(:metric\s+(minimize|maximize)\s+[-0-9.]+\s*\)", prob))
@@ -220,7 +248,9 @@ def check_problem(pb, rec, info, wbase, b, res, rng, explicit_env=False):
                 # `(:metric maximize 0)` (the metric expression simplifies to a constant): legal PDDL the UP reader's grammar
                 # (metric ::= name | nested expression) cannot parse
                 mech = "reader-raises:up:constant-metric"
-            elif type_object and isinstance(ex, KeyError) and "object" in str(ex):
+            elif type_object and not isinstance(ex, io_rt.UPException):
+                # the writer left the user type `object` unmangled: the text declares objects / parameters `- object` and, for
+                # other letter cases, `object` in (:types ...) - whichever internal error the readers answer with
                 mech = "writer:user-type-named-object"
             elif which == "up" and pddl3:
                 # the writer left a PDDL3 modal-operator word (always, sometime, ...) unmangled (it only reserves them for
@@ -283,6 +313,11 @@ def check_problem(pb, rec, info, wbase, b, res, rng, explicit_env=False):
         for k, v in st.counters.items():
             res.count(k, v)
         res.count(f"bisimulated:{which}")
+        if obj_types:
+            # (the correspondence compared the extension of every type and the domain of every parameter before any state)
+            res.count("class:user-type-named-object")
+            if obj_type_used:
+                res.count("class:user-type-named-object-as-parameter-type")
         if st.nontrivial:
             res.count(f"bisimulated_with_changes:{which}")
             if interesting:
@@ -303,6 +338,12 @@ def check_problem(pb, rec, info, wbase, b, res, rng, explicit_env=False):
                 res.count("class:timed-initial")
             if info.get("rewrite"):
                 res.count("class:rewrite-bool-assignments")
+            # strata: the bisimulation judged >= 1 applicable, state-changing instance of an action with such an assignment /
+            # of a problem with such a type
+            applied = {_ast.literal_eval(k)[1] for _, k, _ in st.nontrivial if k.startswith(("('inst'", "('dur'"))}
+            for val in (False, True):
+                if any(a in applied for a, _, v in const_ass if v == val):
+                    res.count("class:bool-assignment-simplifying-to-" + ("true" if val else "false"))
             if "example" not in wbase and iofrag.has_non_dyadic_decimals(rec):
                 res.count("class:non-dyadic-decimal-constants")
                 if st.counters.get("state-pairs-with-non-dyadic-decimal-values"):
@@ -491,6 +532,10 @@ REQUIRED = {
         "class:timed-initial": 3,
         "class:non-dyadic-decimal-constants": 15,  # Real constants such as 1/10, 3/10, 0.35 (finite decimal, no binary float)
         "class:non-dyadic-decimal-values-in-states": 10,  # ... that reached judged states (initial values / effect values)
+        # strata planted by vk.gen.iofrag.gen_pddl_case (every 9th case each; counted per (case, reader) the bisimulation completed for)
+        "class:bool-assignment-simplifying-to-false": 5,  # `f := e`, e non-constant but simplifying to false, f true, action applied
+        "class:user-type-named-object": 8,  # flat typing, a user type `object` / `Object` / .. next to others, objects of both
+        "class:user-type-named-object-as-parameter-type": 6,
         "walk-steps-beyond-depth": 40,  # lock-step walk steps past the breadth-first depth (accumulated effects)
         "feature:conditional": 100,
         "feature:forall": 40,
@@ -501,6 +546,7 @@ REQUIRED = {
     },
 }
 REQUIRED["thorough"] = {k: v * 20 for k, v in REQUIRED["quick"].items()}
+REQUIRED["thorough"]["class:bool-assignment-simplifying-to-true"] = 20  # the mirror image (every 7th case of that stratum)
 
 
 def thresholds(m):
